@@ -294,13 +294,15 @@ func runCase(ps profileSpec, s *session.Session, its []item, seq []int) {
 func startupSweep(idx, n int) {
 	k := 0
 	for caps := refterm.Cap(0); caps < 1<<refterm.NumGatingCaps; caps++ {
-		for _, absent := range []int{0, 3, 4} {
+		for v := 0; v < 6; v++ {
 			k++
 			if k%n != idx {
 				continue
 			}
+			absent := []int{0, 3, 4}[v%3]
 			prof := refterm.DefaultProfile(caps|refterm.CapOSC4|refterm.CapSizeReports, refterm.VersionOther)
 			prof.AbsentModeReply = absent
+			prof.TcapNameOnly = v >= 3
 			s, err := session.Open(prof, 10, 10, vaxis.Options{})
 			if err != nil {
 				r.Fault("open: %v", err)
@@ -323,7 +325,7 @@ func startupSweep(idx, n int) {
 			}
 			s.Vx.Close()
 			if ok {
-				r.Distinct(explore.Hash("startup", fmt.Sprint(caps, absent)))
+				r.Distinct(explore.Hash("startup", fmt.Sprint(caps, v)))
 			}
 		}
 	}
@@ -435,7 +437,7 @@ func main() {
 	n := r.Get("cases") + r.Get("startups")
 	r.Finish(explore.Coverage{
 		States: -1, Transitions: n, Traces: n, Evaluations: n,
-		Rule:       fmt.Sprintf("every sequence of 1 and 2 items from an alphabet of %d terminal reports (legacy/kitty keys, SGR mouse with every modifier, focus, paste brackets, every reply Vaxis parses, and %d truncated/malformed variants), and every sequence of 3 (thorough: 4) items from the wedge-prone subset, injected after start-up through a fake console under 3 capability profiles plus one with an event queue of 2 and a consumer that lets the producers run until they block, each followed by a sentinel key; the user-input events read from Events() must be exactly those of the user-input reports, in order, with pasted keys marked; replies produce no user-input event; the sentinel must arrive (virtual 10 ms deadlines are fired whenever the reader is idle); a dying worker is turned into a crash violation and the shard resumes. Start-up replies: every subset of the 12 gating capabilities x the DECRPM status (0, 3 or 4) a terminal gives for a mode it does not implement: the capability set New ends with must be exactly the one the replies report. distinct = sequences that passed", len(its), countGarbage(its)),
+		Rule:       fmt.Sprintf("every sequence of 1 and 2 items from an alphabet of %d terminal reports (legacy/kitty keys, SGR mouse with every modifier, focus, paste brackets, every reply Vaxis parses, and %d truncated/malformed variants), and every sequence of 3 (thorough: 4) items from the wedge-prone subset, injected after start-up through a fake console under 3 capability profiles plus one with an event queue of 2 and a consumer that lets the producers run until they block, each followed by a sentinel key; the user-input events read from Events() must be exactly those of the user-input reports, in order, with pasted keys marked; replies produce no user-input event; the sentinel must arrive (virtual 10 ms deadlines are fired whenever the reader is idle); a dying worker is turned into a crash violation and the shard resumes. Start-up replies: every subset of the 12 gating capabilities x the DECRPM status (0, 3 or 4) a terminal gives for a mode it does not implement x the two forms of a positive XTGETTCAP answer (name=value, name only): the capability set New ends with must be exactly the one the replies report. distinct = sequences that passed", len(its), countGarbage(its)),
 		Exhaustive: true,
 		Bounds:     map[string]any{"alphabet": len(its), "deep_depth": r.Pick(3, 4)},
 		Assumptions: []string{"internal marker events of unexported types that a late reply posts to the application's queue are not user-input events",
